@@ -27,6 +27,8 @@ pub enum Mode {
     SendThenRecv(u8),
     DropImmediately,
     DropAfter(u8),
+    /// poll with recv_nonblocking; whenever that reports `nothing yet`, wait with a blocking recv
+    Mixed,
 }
 
 #[derive(Clone, Debug, Serialize, Deserialize, PartialEq)]
@@ -43,6 +45,16 @@ pub enum Ending {
     /// wait for the server to finish (only with Drop modes) 
     ServerDrop,
     Abrupt,
+    /// the client's last frame is a bare two-byte header with a reserved opcode (3..7, 11..15): receive fails, the handler
+    /// returns, and dropping the stream must send a Close
+    Reserved(u8),
+    /// the client writes the first 2 + k % 13 bytes of a 16-byte frame and then shuts down its sending direction only:
+    /// receive fails, the handler returns, and the Close sent on drop must reach the still-listening client
+    HalfClose(u8),
+}
+
+fn reserved_opcode(k: u8) -> u8 {
+    [3u8, 4, 5, 6, 7, 11, 12, 13, 14, 15][k as usize % 10]
 }
 
 #[derive(Clone, Debug, Serialize, Deserialize, PartialEq)]
@@ -112,7 +124,23 @@ fn handler(mut stream: WebsocketStream, state: Arc<State>) {
                 break;
             }
         }
-        if mode == Mode::NonBlocking {
+        if mode == Mode::Mixed {
+            let got = match stream.recv_nonblocking() {
+                Restion::Ok(m) => Ok(m),
+                Restion::Err(e) => Err(e),
+                Restion::None => stream.recv(),
+            };
+            match got {
+                Ok(m) => {
+                    received += 1;
+                    log(Ev::Msg { text: m.is_text(), payload: m.bytes().to_vec() });
+                }
+                Err(e) => {
+                    log(Ev::Err(format!("{:?}", e)));
+                    break;
+                }
+            }
+        } else if mode == Mode::NonBlocking {
             match stream.recv_nonblocking() {
                 Restion::Ok(m) => {
                     received += 1;
@@ -192,6 +220,10 @@ pub fn client_frames(c: &Case) -> Vec<RFrame> {
     }
     if let Ending::ClientClose(p) = &c.ending {
         out.push(RFrame { fin: true, rsv: [false; 3], opcode: 8, mask: key(), payload: p.clone() });
+    }
+    if let Ending::Reserved(k) = &c.ending {
+        // unmasked and empty: exactly the two header bytes, so that nothing is left unread when the server gives up on it
+        out.push(RFrame { fin: true, rsv: [false; 3], opcode: reserved_opcode(*k), mask: None, payload: Vec::new() });
     }
     out
 }
@@ -346,7 +378,7 @@ pub fn run_case(c: &Case, ip: &str) -> Vec<Fail> {
     // When the harness itself ends the session by vanishing, it first lets the handler take in what was sent (all of it is
     // in the kernel's buffers by now): vanishing earlier may reset the connection and wipe what the server has not read
     // yet, which would make "the handler got only some of the messages" a property of the harness, not of the server.
-    let sent_msgs = frames.iter().filter(|f| f.fin && f.opcode < 8).count();
+    let sent_msgs = frames.iter().filter(|f| f.fin && f.opcode < 3).count();
     let takes_all = !matches!(c.mode, Mode::DropImmediately | Mode::DropAfter(_));
     let wait_taken = |max: Duration| {
         let t = Instant::now();
@@ -363,17 +395,26 @@ pub fn run_case(c: &Case, ip: &str) -> Vec<Fail> {
             std::thread::sleep(Duration::from_millis(5));
             *st.client_gone.lock().unwrap() = true;
         }
+        Ending::HalfClose(k) => {
+            wait_taken(Duration::from_secs(5));
+            let partial = ws::encode(&RFrame { fin: true, rsv: [false; 3], opcode: 1, mask: Some([9, 8, 7, 6]), payload: b"never done".to_vec() });
+            let _ = sock.write_all(&partial[..2 + (*k as usize % 13)]);
+            std::thread::sleep(Duration::from_millis(2));
+            let _ = sock.shutdown(std::net::Shutdown::Write);
+            std::thread::sleep(Duration::from_millis(5));
+            *st.client_gone.lock().unwrap() = true;
+        }
         _ => {}
     }
     // wait until the handler is done (all modes end: close, drop limit, or disconnect)
     let t0 = Instant::now();
-    let n_msgs = frames.iter().filter(|f| f.fin && f.opcode < 8).count();
+    let n_msgs = frames.iter().filter(|f| f.fin && f.opcode < 3).count();
     let limit_reached = match c.mode {
         Mode::DropImmediately => true,
         Mode::DropAfter(j) => n_msgs >= 1 + j as usize % 4,
         _ => false,
     };
-    let handler_ends = limit_reached || matches!(c.ending, Ending::ClientClose(_));
+    let handler_ends = limit_reached || matches!(c.ending, Ending::ClientClose(_) | Ending::Reserved(_) | Ending::HalfClose(_));
     while handler_ends && !*st.done.lock().unwrap() && t0.elapsed() < Duration::from_secs(6) {
         std::thread::sleep(Duration::from_millis(1));
     }
@@ -444,6 +485,7 @@ pub fn run_case(c: &Case, ip: &str) -> Vec<Fail> {
     let mut msgs = 0usize;
     let mut cur: Option<(bool, Vec<u8>)> = None;
     let mut closed_by_client = false;
+    let mut errored = false;
     let mut stopped = limit == Some(0);
     let mut tail_uncertain = false; // frames the server may or may not have processed before it stopped / the client vanished
     for f in &frames {
@@ -460,6 +502,11 @@ pub fn run_case(c: &Case, ip: &str) -> Vec<Fail> {
                 want_frames.push(RFrame { fin: true, rsv: [false; 3], opcode: 8, mask: None, payload: f.payload.clone() });
                 want_log.push(Ev::Err("ConnectionClosed".into()));
                 closed_by_client = true;
+                stopped = true;
+            }
+            op if op > 2 => {
+                // reserved opcode: receive fails, the handler returns
+                errored = true;
                 stopped = true;
             }
             op => {
@@ -481,11 +528,20 @@ pub fn run_case(c: &Case, ip: &str) -> Vec<Fail> {
             }
         }
     }
-    if limit.is_some() && stopped && !closed_by_client {
-        // handler returned on its own: dropping the stream sends a Close
+    if matches!(c.ending, Ending::HalfClose(_)) && !stopped {
+        // every complete frame was taken in, then the stream ended inside a frame: receive fails, the handler returns
+        errored = true;
+        stopped = true;
+    }
+    if (errored || limit.is_some()) && stopped && !closed_by_client {
+        // handler returned on its own (its limit, or a receive error): dropping the stream sends a Close
         want_frames.push(RFrame { fin: true, rsv: [false; 3], opcode: 8, mask: None, payload: Vec::new() });
     }
     if matches!(c.ending, Ending::Abrupt) || !handler_ends {
+        tail_uncertain = true;
+    }
+    if matches!(c.ending, Ending::HalfClose(_)) && !errored {
+        // the handler had already returned (its limit) when the partial frame arrived: the reset may wipe its Close
         tail_uncertain = true;
     }
     if !closed_by_client && limit.is_none() {
@@ -523,7 +579,7 @@ pub fn run_case(c: &Case, ip: &str) -> Vec<Fail> {
     if got_msgs != want_msgs {
         let k = got_msgs.iter().zip(&want_msgs).position(|(a, b)| a != b).unwrap_or(got_msgs.len().min(want_msgs.len()));
         fails.push(fail!(
-            if c.mode == Mode::NonBlocking { "messages:nonblocking" } else { "messages:blocking" },
+            match c.mode { Mode::NonBlocking => "messages:nonblocking", Mode::Mixed => "messages:mixed", _ => "messages:blocking" },
             "the handler received {} messages, the client sent {}; first difference at #{}: got {:?}, sent {:?} (mode {:?}, delivery {:?})",
             got_msgs.len(),
             want_msgs.len(),
@@ -578,7 +634,7 @@ fn arb_case() -> impl Strategy<Value = Case> {
         1 => arb_small().prop_map(Item::Pong),
     ];
     (
-        prop_oneof![4 => Just(Mode::RecvLoop), 4 => Just(Mode::NonBlocking), 2 => any::<u8>().prop_map(Mode::SendThenRecv), 1 => Just(Mode::DropImmediately), 2 => any::<u8>().prop_map(Mode::DropAfter)],
+        prop_oneof![4 => Just(Mode::RecvLoop), 4 => Just(Mode::NonBlocking), 3 => Just(Mode::Mixed), 2 => any::<u8>().prop_map(Mode::SendThenRecv), 1 => Just(Mode::DropImmediately), 2 => any::<u8>().prop_map(Mode::DropAfter)],
         prop_oneof![
             1 => Just(None),
             6 => Just(Some("dGhlIHNhbXBsZSBub25jZQ==".to_string())),
@@ -587,7 +643,7 @@ fn arb_case() -> impl Strategy<Value = Case> {
             1 => "[a-zA-Z0-9+/=]{200}".prop_map(Some),
         ],
         proptest::collection::vec(item, 0..6),
-        prop_oneof![4 => prop_oneof![Just(Vec::new()), Just(vec![0x03, 0xe8]), Just(vec![0x03, 0xe9, b'b', b'y', b'e'])].prop_map(Ending::ClientClose), 2 => Just(Ending::ServerDrop), 1 => Just(Ending::Abrupt)],
+        prop_oneof![4 => prop_oneof![Just(Vec::new()), Just(vec![0x03, 0xe8]), Just(vec![0x03, 0xe9, b'b', b'y', b'e'])].prop_map(Ending::ClientClose), 2 => Just(Ending::ServerDrop), 1 => Just(Ending::Abrupt), 1 => any::<u8>().prop_map(Ending::Reserved), 1 => any::<u8>().prop_map(Ending::HalfClose)],
         prop_oneof![3 => Just(Delivery::Whole), 2 => Just(Delivery::ByteWise), 3 => (1u8..9).prop_map(Delivery::SplitFrameAt), 2 => any::<u64>().prop_map(Delivery::Random)],
         any::<u64>(),
     )
@@ -631,7 +687,13 @@ pub fn run(ctx: &Ctx) {
                     Mode::SendThenRecv(_) => "mode:send-then-recv",
                     Mode::DropImmediately => "mode:drop-immediately",
                     Mode::DropAfter(_) => "mode:drop-after",
+                    Mode::Mixed => "mode:nonblocking-then-blocking",
                 });
+                match c.ending {
+                    Ending::Reserved(_) => labels.push("ending:reserved-opcode-then-drop"),
+                    Ending::HalfClose(_) => labels.push("ending:half-close-inside-a-frame-then-drop"),
+                    _ => {}
+                }
                 ctx.case(hash_of(&format!("{:?}", c)), frag_ping || ping || split, &labels);
                 ctx.sample(labels.last().unwrap(), || json!({"mode": c.mode, "key": c.key, "frames": client_frames(c).iter().map(short_frame).collect::<Vec<_>>(), "ending": c.ending, "delivery": c.delivery}));
                 let f = run_case(c, &ip);
